@@ -97,6 +97,9 @@ def gen(rng):
             break
     sc = {"steps": steps, "script": script, "reaction": rng.choice(REACTIONS), "timeout": rng.choice((S, 2 * S)),
           "seed": rng.randrange(1 << 30)}
+    if rng.random() < 0.2:
+        # the transport fails while the client is writing (possibly in the middle of its close frame)
+        sc["send_fault"] = {"after_bytes": rng.choice((0, 1, 2, 3, 5, 6, 7, 8, 12, 20)), "errno": rng.choice(("TIMEOUT", "EPIPE", "ECONNRESET"))}
     if rng.random() < 0.25:
         # blocking socket (the library default): only calls that cannot block for ever on a silent peer
         sc["timeout"] = None
@@ -156,7 +159,13 @@ def run(sc, choices=None):
     if reaction == "trickle":
         link = {"trickle_after_close": True}
     peer_cfg = {"script": script, "on_close": oc, "on_ping": {"mode": "pong"}, "eof_on_client_eof": True}
-    w, peers = std_world(seed=int(sc.get("seed", 1)), peer_cfg=peer_cfg, step_cap=300_000)
+    sockcfg = {}
+    sf = sc.get("send_fault")
+    if sf is not None:
+        if sf.get("errno") not in ("TIMEOUT", "EPIPE", "ECONNRESET") or not 0 <= int(sf.get("after_bytes", 0)) <= 4000:
+            raise InvalidScenario("send_fault")
+        sockcfg = {"send_fail": {"after_bytes": int(sf["after_bytes"]), "errno": sf["errno"]}}
+    w, peers = std_world(seed=int(sc.get("seed", 1)), peer_cfg=peer_cfg, sock=sockcfg, step_cap=300_000)
     state = "OPEN"  # OPEN | CLOSE_SENT | PEER_CLOSED | CLOSED
     own_close_frames = 0
     sigsteps = []
@@ -214,6 +223,8 @@ def run(sc, choices=None):
             frames, pos = R.decode_all(wrote)
             sock_ops = [e for e in w.k.log[log0:] if e[3] in ("send", "recv_call", "shutdown", "settimeout") and e[4] == sock.fd]
             closes = [f for f in frames if f.opcode == 8]
+            tail = wrote[pos:]
+            partial_close = bool(tail) and (tail[0] & 0x0F) == 8  # a close frame was started and cut off by the transport
             ename = exc_name(exc) if exc is not None else None
             sigsteps.append((op, state, ename, len(closes)))
             ctx = f"{op}/{state}"
@@ -231,6 +242,46 @@ def run(sc, choices=None):
                         res.violate("out_of_range_status_changed_state", ctx, f"status {status}: connected={c.connected} socket closed={sock.closed}")
                         break
                     continue
+            write_failed = any(e[3] == "send_error" for e in w.k.log[log0:])
+            if write_failed and state not in ("CLOSED",):
+                # the transport failed under a write: what the connection is afterwards is not pinned down, except that
+                # close() must still release it and that no second close frame may be started
+                own_close_frames += (len(closes) + int(partial_close)) if op in ("close", "recv") else 0
+                if op == "close":
+                    if exc is not None:
+                        res.violate("close_raised", ctx, f"close() raised {ename}: {exc}")
+                        break
+                    if not sock.closed or c.sock is not None or c.connected:
+                        res.violate("transport_not_released_by_close", "close/BROKEN", f"after close() on a failed transport: socket closed={sock.closed}")
+                        break
+                    state = "CLOSED"
+                elif op == "shutdown":
+                    state = "CLOSED"
+                else:
+                    state = "BROKEN"
+                if own_close_frames > 1:
+                    res.violate("second_close_frame", ctx, f"{own_close_frames} close frames started by close()/automatic reply")
+                    break
+                continue
+            if state == "BROKEN":
+                own_close_frames += (len(closes) + int(partial_close)) if op in ("close", "recv") else 0
+                if op == "close":
+                    if exc is not None:
+                        res.violate("close_raised", ctx, f"close() raised {ename}: {exc}")
+                        break
+                    if not sock.closed or c.sock is not None or c.connected:
+                        res.violate("transport_not_released_by_close", "close/BROKEN", f"after close() on a failed transport: socket closed={sock.closed}")
+                        break
+                    state = "CLOSED"
+                elif op == "shutdown":
+                    state = "CLOSED"
+                elif isinstance(exc, ws.WebSocketConnectionClosedException) and sock.closed:
+                    state = "CLOSED"
+                if own_close_frames > 1:
+                    res.violate("second_close_frame", ctx, f"{own_close_frames} close frames started by close()/automatic reply "
+                                f"(one of them cut off by the failing transport)")
+                    break
+                continue
             if state == "CLOSED":
                 if op in ("send", "recv", "ping"):
                     if not isinstance(exc, ws.WebSocketConnectionClosedException):
@@ -255,15 +306,15 @@ def run(sc, choices=None):
                     break
                 transport_failed = sock.rx_reset or any(e[3] == "send_error" for e in w.k.log[log0:])
                 if state == "OPEN" and transport_failed:
-                    own_close_frames += len(closes)
+                    own_close_frames += len(closes) + int(partial_close)
                 elif state == "OPEN":
                     if len(closes) != 1 or closes[0].payload != int(st["status"]).to_bytes(2, "big") + reason or len(frames) != 1:
                         res.violate("close_frame_wrong", ctx, f"close({st['status']}, {len(reason)} bytes) wrote {[f.brief() for f in frames]} "
                                     f"{closes[0].payload[:8].hex() if closes else ''}")
                         break
                     own_close_frames += 1
-                elif closes:
-                    own_close_frames += len(closes)
+                elif closes or partial_close:
+                    own_close_frames += len(closes) + int(partial_close)
                 if exc is not None:
                     res.violate("close_raised", ctx, f"close() raised {ename}: {exc}")
                     break
@@ -286,8 +337,8 @@ def run(sc, choices=None):
                     break
                 state = "CLOSED"
             elif op == "recv":
-                if closes:
-                    own_close_frames += len(closes)
+                if closes or partial_close:
+                    own_close_frames += len(closes) + int(partial_close)
                 if exc is None and ret is not None and ret[0] == 8:
                     if state != "PEER_CLOSED" and len(closes) != 1 and state == "OPEN":
                         res.violate("no_automatic_close_reply", ctx, f"server close received, client wrote {[f.brief() for f in frames]}")
@@ -336,4 +387,4 @@ class _EveryGap(dict):
 
 def sample_view(sc, r):
     return {"steps": sc["steps"], "peer_script": [{k: v for k, v in it.items()} for it in sc.get("script", ())],
-            "reaction": sc.get("reaction"), "socket_timeout_ticks": sc.get("timeout")}
+            "reaction": sc.get("reaction"), "socket_timeout_ticks": sc.get("timeout"), "send_fault": sc.get("send_fault")}
